@@ -286,6 +286,28 @@ func (c *Check) rangeComparesScaledValues() {
 						}
 					}
 				}
+				// a bound belongs to its range: the two-sided form a:b, the open forms a: and :b
+				// and the single value all accept the value written in the expression
+				strict := cmp.Op == token.LSS || cmp.Op == token.GTR
+				if refs := cmp.Referrers(); strict && refs != nil && len(*refs) > 0 {
+					negated := true
+					for _, r := range *refs {
+						if u, ok := r.(*ssa.UnOp); !ok || u.Op != token.NOT {
+							negated = false
+						}
+					}
+					if negated {
+						strict = false
+					}
+				}
+				isFloat := func(v ssa.Value) bool {
+					bt, ok := v.Type().Underlying().(*types.Basic)
+					return ok && bt.Info()&types.IsFloat != 0
+				}
+				if strict && isFloat(cmp.X) && isFloat(cmp.Y) {
+					c.bad("C06-R6", key+":strict", p.relFile(cmp.Pos()), "a numeric tag range predicate compares with a strict "+cmp.Op.String()+": the bound written in the expression is excluded from its own range (tagfocus=:1mb drops the samples of exactly 1mb that tagfocus=1mb keeps)")
+					continue
+				}
 				if trunc {
 					c.bad("C06-R6", key, p.relFile(cmp.Pos()), "a numeric tag range predicate compares values after truncating them to integers: values that differ by less than one unit of the expression (1500 bytes against 1kb) compare as equal or fall on the wrong side of a bound")
 				} else {
